@@ -1068,7 +1068,11 @@ def tensor(data, dtype=None, device=None, requires_grad=False):
         return data.clone() if dtype is None else data.to(dtype=dtype).clone()
     dt = dtype or _infer_dtype(data)
     if _isnum(data) or isinstance(data, SymBool):
-        return Tensor(_scalar_arr(data, dt), dt, requires_grad)
+        t = Tensor(_scalar_arr(data, dt), dt, requires_grad)
+        if symx.CTX.opts.get("round_double_inputs") and dt.cat == 2 and dt.bits < 64 and isinstance(data, SymReal) and data.c is None and not _concrete():
+            # a Python float (a double) stored into a lower-precision tensor is rounded: uninterpreted round_<dtype>(x) (opt-in per check)
+            t.a[()] = symx.opaque("round_" + dt.name, [data])
+        return t
     src = np.asarray(data, dtype=object) if not isinstance(data, np.ndarray) else data
     if src.dtype != object:
         src = src.astype(object)
